@@ -65,3 +65,16 @@ func scribbleDeep(v reflect.Value, depth int, seen map[uintptr]bool) {
 		}
 	}
 }
+
+// copyConfig assigns every exported setting of src to dst except the key-store fields (an
+// operator reconfiguring a provider that is already in use); unexported state stays with dst.
+func copyConfig(dst, src interface{}) {
+	d, s := reflect.ValueOf(dst).Elem(), reflect.ValueOf(src).Elem()
+	for i := 0; i < d.NumField(); i++ {
+		ft := d.Type().Field(i)
+		if ft.PkgPath != "" || ft.Name == "SPKeyStore" || ft.Name == "SPSigningKeyStore" {
+			continue
+		}
+		d.Field(i).Set(s.Field(i))
+	}
+}
